@@ -125,6 +125,13 @@ def menu():
 
 
 MENU = menu()
+BY_NAME = dict(MENU)
+assert len(BY_NAME) == len(MENU), 'menu names must be unique'
+
+
+def entry(d):
+    """menu entry by name (cases carry names so that stored replays survive menu changes) or by index"""
+    return (d, BY_NAME[d]) if isinstance(d, str) else MENU[d]
 
 
 def bounds(tier, seed):
@@ -135,10 +142,10 @@ def cases(tier, seed):
     for b in BASES:
         yield dict(base=b, devs=[])
         for i in range(len(MENU)):
-            yield dict(base=b, devs=[i])
+            yield dict(base=b, devs=[MENU[i][0]])
         if tier == 'thorough':
             for i, j in itertools.combinations(range(len(MENU)), 2):
-                yield dict(base=b, devs=[i, j])
+                yield dict(base=b, devs=[MENU[i][0], MENU[j][0]])
 
 
 def describe(m):
@@ -207,7 +214,7 @@ def evaluate(c):
     argv = list(BASES[c['base']])
     names = []
     for i in c['devs']:
-        name, f = MENU[i]
+        name, f = entry(i)
         argv = f(argv)
         names.append(name)
     label = '%s + %s' % (c['base'], names)
